@@ -1303,7 +1303,9 @@ fn svg_op() -> BoxedStrategy<SvgOp> {
 fn png_safe(o: &SvgOp) -> bool {
     match o {
         SvgOp::Margin(_) => true,
-        SvgOp::ModuleColor(c) | SvgOp::Background(c) => matches!(c, ColorSpec::Rgb(_)),
+        SvgOp::ModuleColor(c) => matches!(c, ColorSpec::Rgb(_)),
+        // backgrounds may be transparent or translucent (numeric colours only: the rasteriser resolves no CSS names here)
+        SvgOp::Background(c) => matches!(c, ColorSpec::Rgb(_) | ColorSpec::Rgba(_)),
         SvgOp::Shape(_, c) => c.as_ref().map(|c| matches!(c, ColorSpec::Rgb(_))).unwrap_or(true),
         _ => false,
     }
@@ -1325,6 +1327,7 @@ fn p_op() -> BoxedStrategy<SvgOp> {
         2 => palette_rgb().prop_map(SvgOp::ImageBgColor),
         2 => palette_rgb().prop_map(SvgOp::ModuleColor),
         2 => palette_rgb().prop_map(SvgOp::Background),
+        1 => (any::<[u8; 3]>(), prop_oneof![Just(0u8), Just(128u8), 1u8..255]).prop_map(|(c, a)| SvgOp::Background(ColorSpec::Rgba([c[0], c[1], c[2], a]))),
         1 => (0usize..6).prop_map(|s| SvgOp::Shape(s, None)),
         1 => (2u32..12).prop_map(|x| SvgOp::ImageSize(x as f64 / 2.0)),
     ]
@@ -1337,6 +1340,7 @@ fn png_op() -> BoxedStrategy<SvgOp> {
         2 => (0usize..=6).prop_map(SvgOp::Margin),
         2 => rgb_color().prop_map(SvgOp::ModuleColor),
         2 => rgb_color().prop_map(SvgOp::Background),
+        2 => (any::<[u8; 3]>(), prop_oneof![Just(0u8), Just(128u8), 1u8..255]).prop_map(|(c, a)| SvgOp::Background(ColorSpec::Rgba([c[0], c[1], c[2], a]))),
         3 => (0usize..6, prop_oneof![Just(None), rgb_color().prop_map(Some)]).prop_map(|(s, c)| SvgOp::Shape(s, c)),
     ]
     .boxed()
